@@ -1328,52 +1328,58 @@ pub fn multiply() -> impl Function {
 
 /// The division (the domain is partitionned)
 pub fn divide() -> impl Function {
-    Polymorphic::from((
-        // Integer implementation
-        PartitionnedMonotonic::piecewise_bivariate(
-            [
-                (
-                    data_type::Integer::from_min(0),
-                    data_type::Integer::from_min(0),
-                ),
-                (
-                    data_type::Integer::from_min(0),
-                    data_type::Integer::from_max(0),
-                ),
-                (
-                    data_type::Integer::from_max(0),
-                    data_type::Integer::from_min(0),
-                ),
-                (
-                    data_type::Integer::from_max(0),
-                    data_type::Integer::from_max(0),
-                ),
-            ],
-            |x, y| x.saturating_div(y),
-        ),
-        // Float implementation
-        PartitionnedMonotonic::piecewise_bivariate(
-            [
-                (
-                    data_type::Float::from_min(0.0),
-                    data_type::Float::from_min(0.0),
-                ),
-                (
-                    data_type::Float::from_min(0.0),
-                    data_type::Float::from_max(0.0),
-                ),
-                (
-                    data_type::Float::from_max(0.0),
-                    data_type::Float::from_min(0.0),
-                ),
-                (
-                    data_type::Float::from_max(0.0),
-                    data_type::Float::from_max(0.0),
-                ),
-            ],
-            |x, y| (x / y).clamp(<f64 as Bound>::min(), <f64 as Bound>::max()),
-        ),
-    ))
+    // The quotient is not defined for a null divisor and `Expr::divide` guards every division by
+    // `divisor >= EPSILON OR divisor <= -EPSILON`. The partitions leave the divisors in between out:
+    // on each of them the quotient is monotonic and defined at every bound. The domains are not
+    // restricted: a set of divisors that contains 0 is accepted, its image is the image of the other divisors.
+    const EPSILON: f64 = 1.0 / f64::MAX;
+    // Integer implementation
+    let mut integer = PartitionnedMonotonic::piecewise_bivariate(
+        [
+            (
+                data_type::Integer::from_min(0),
+                data_type::Integer::from_min(1),
+            ),
+            (
+                data_type::Integer::from_min(0),
+                data_type::Integer::from_max(-1),
+            ),
+            (
+                data_type::Integer::from_max(0),
+                data_type::Integer::from_min(1),
+            ),
+            (
+                data_type::Integer::from_max(0),
+                data_type::Integer::from_max(-1),
+            ),
+        ],
+        |x: i64, y: i64| x.saturating_div(y),
+    );
+    integer.domain = (data_type::Integer::default(), data_type::Integer::default()).into();
+    // Float implementation
+    let mut float = PartitionnedMonotonic::piecewise_bivariate(
+        [
+            (
+                data_type::Float::from_min(0.0),
+                data_type::Float::from_min(EPSILON),
+            ),
+            (
+                data_type::Float::from_min(0.0),
+                data_type::Float::from_max(-EPSILON),
+            ),
+            (
+                data_type::Float::from_max(0.0),
+                data_type::Float::from_min(EPSILON),
+            ),
+            (
+                data_type::Float::from_max(0.0),
+                data_type::Float::from_max(-EPSILON),
+            ),
+        ],
+        |x: f64, y: f64| (x / y).clamp(<f64 as Bound>::min(), <f64 as Bound>::max()),
+    );
+    float.domain = (data_type::Float::default(), data_type::Float::default()).into();
+    Polymorphic::from((integer, float))
 }
 
 /// The remainder of the division of `a` by `b`: not defined for a null divisor
